@@ -9,7 +9,7 @@ import sys
 from jv import elf, harness, real
 
 LEVEL = "exploration"
-RULE = ("A pool of ~37 hand-picked complete compile-and-match operations plus 10 (quick) / 24 (thorough) operations drawn at "
+RULE = ("A pool of ~43 hand-picked complete compile-and-match operations plus 10 (quick) / 24 (thorough) operations drawn at "
         "random per shard (rules of all operator kinds with random config, captures and factored macros). The hand-picked ones are chosen so that every piece of process-global or per-compilation "
         "state flips a verdict if it leaks: the 4 full-match flag settings on one near-miss listing; two valid_addr_range "
         "settings and none on a listing where only tagging decides; sections lists vs none on a multi-section ELF; style "
@@ -92,6 +92,16 @@ def pool():
     add("mac-file-zzz", {"macros": [{"name": "@m", "pattern": "zzz"}], "pattern": ["@m", "@m"]}, mode=L)
     add("mac-extra-push", {"pattern": ["call", "@m"]}, macros=[{"macros": [{"name": "@m", "pattern": "push"}]}], mode=L)
     add("mac-extra-zzz", {"pattern": ["call", "@m"]}, macros=[{"macros": [{"name": "@m", "pattern": "zzz"}]}], mode=L)
+    # one library file (same path, same content) whose list-bodied macro refers to a macro each rule defines itself
+    lib = {"macros": [{"name": "@two", "pattern": [{"$and": ["@x", "@x"]}]}]}
+    add("mac-lib-push", {"macros": [{"name": "@x", "pattern": "push"}], "pattern": ["@two"]}, macros=[lib], mode=L)
+    add("mac-lib-zzz", {"macros": [{"name": "@x", "pattern": "zzz"}], "pattern": ["@two"]}, macros=[lib], mode=L)
+    add("mac-lib-call", {"macros": [{"name": "@x", "pattern": "add"}], "pattern": ["push", "@two"]}, macros=[lib], mode=L)
+    ops[-1]["share_macro_paths"] = ops[-2]["share_macro_paths"] = ops[-3]["share_macro_paths"] = "lib"
+    # one register-family capture name at different positions of the capture table
+    add("cap-regname-first", {"pattern": [{"push": ["&genreg-acc.64"]}, {"push": ["&genreg-acc.64"]}]}, mode=L)
+    add("cap-regname-second", {"pattern": [{"movq": ["&o1", "&genreg-acc.64"]}, "call", {"push": ["&genreg-acc.64"]}]}, mode=L)
+    add("cap-regname-third", {"pattern": [{"movq": ["&o1", "&o2"]}, "call", {"push": ["&genreg-acc.64"]}, {"push": ["&genreg-acc.64"]}]}, mode=L)
     add("mac-param", {"macros": [{"name": "@p", "args": ["r"], "pattern": [{"push": ["r"]}]}],
                       "pattern": [{"@p": None, "r": "%rbx"}, {"@p": None, "r": "%rbx"}]}, mode=L)
     add("mac-param-neg", {"macros": [{"name": "@p", "args": ["r"], "pattern": [{"push": ["r"]}]}],
@@ -151,7 +161,10 @@ def materialise(ws, ops):
     out = []
     for i, op in enumerate(ops):
         rp = ws.write(f"op{i}.yaml", op["rule"])
-        mf = [ws.write(f"op{i}_m{j}.yaml", m) for j, m in enumerate(op["macros"])]
+        if op.get("share_macro_paths"):
+            mf = [ws.write(f"shared_{op['share_macro_paths']}_{j}.yaml", m) for j, m in enumerate(op["macros"])]   # same path, same content
+        else:
+            mf = [ws.write(f"op{i}_m{j}.yaml", m) for j, m in enumerate(op["macros"])]
         if op["input"] == "rand":
             inp = ws.write(f"op{i}_rand.s", op["input_text"])
         else:
@@ -234,7 +247,7 @@ def shared_paths(ws, op, mat):
     so that anything cached by path across operations becomes visible."""
     import shutil
     rp = ws.write("shared_rule.yaml", op["rule"])
-    mf = [ws.write(f"shared_m{j}.yaml", m) for j, m in enumerate(op["macros"])] or None
+    mf = mat[1] if op.get("share_macro_paths") else ([ws.write(f"shared_m{j}.yaml", m) for j, m in enumerate(op["macros"])] or None)
     inp = ws.path("shared_input")
     shutil.copyfile(mat[2], inp)
     return (rp, mf, inp, mat[3], mat[4])
